@@ -67,7 +67,7 @@ PROPS = {
     },
     "C12": {
         "suites": [("fd", 200, 2000), ("proc", 120, 1200)],
-        "title": "disjoint live/dead, self never classified nor removed, every other known member in exactly one set after an evaluation; quarantine of scheduled members in digests and deltas; removal at grace; no revival by stale heartbeats; for every message: a removed, remembered member is recreated only by a digest heartbeat strictly above the remembered one; in every reachable state the detector holds no state about a member the node holds no copy of",
+        "title": "disjoint live/dead, self never classified nor removed, every other known member in exactly one set after an evaluation; quarantine of scheduled members in digests and deltas; removal at grace; no revival by stale heartbeats; for every message: a removed, remembered member is recreated only by a digest heartbeat strictly above the remembered one; in every reachable state the detector holds no state about a member the node holds no copy of; the removed-member memory is bounded by its capacity in every reachable state and keeps an entry through fewer than capacity further removals",
     },
     "C13": {
         "suites": [("proc", 150, 1500), ("fd", 150, 1500)],
